@@ -194,6 +194,32 @@ func (r *Run) Eval(key string, nontrivial bool) {
 	s.mu.Unlock()
 }
 
+// Hash64 hashes a string (FNV-1a).
+func Hash64(s string) uint64 { return hash64(s) }
+
+// Mix combines hashes cheaply (splitmix-style).
+func Mix(h uint64, vs ...uint64) uint64 {
+	for _, v := range vs {
+		h ^= v + 0x9E3779B97F4A7C15 + (h << 6) + (h >> 2)
+		h *= 0xBF58476D1CE4E5B9
+		h ^= h >> 31
+	}
+	return h
+}
+
+// EvalH is Eval with a precomputed hash of the case.
+func (r *Run) EvalH(h uint64, nontrivial bool) {
+	r.evals.Add(1)
+	if !nontrivial {
+		return
+	}
+	r.nontriv.Add(1)
+	s := &r.shards[h%64]
+	s.mu.Lock()
+	s.m[h] = struct{}{}
+	s.mu.Unlock()
+}
+
 // Distinct adds a key to the distinct set without counting an evaluation.
 func (r *Run) Distinct(key string) {
 	h := hash64(key)
